@@ -1,7 +1,9 @@
 // GENERATED FILE -- do not edit.  Built by /verif/engine from /repo sources + /verif/contracts.
+#![feature(allocator_api)]
 #![allow(unused_imports, unused_variables, unused_mut, dead_code, non_snake_case, unused_parens, unused_braces)]
 use std::cmp::{max, min, Ordering};
 use std::mem::swap;
+use std::collections::HashMap;
 use vstd::prelude::*;
 use vstd::arithmetic::mul::*;
 use vstd::arithmetic::div_mod::*;
@@ -13,6 +15,9 @@ verus! {
 
 pub assume_specification<'a>[<String as core::convert::From<&'a str>>::from](s: &str) -> (r: String)
     ensures r@ == s@;
+
+pub assume_specification<T, A: std::alloc::Allocator>[<Vec<T, A> as core::convert::AsMut<Vec<T, A>>>::as_mut](v: &mut Vec<T, A>) -> (r: &mut Vec<T, A>)
+    ensures *r == *old(v), *final(v) == *final(r);
 
 // ---- assumed specifications of std items that vstd does not cover (listed in evidence) ----
 pub assume_specification<T: std::cmp::Ord>[std::cmp::max](a: T, b: T) -> (r: T)
